@@ -113,4 +113,20 @@ theorem flags_agree_prim_list (fac : Factory) (rec : Val → Except Err J) (var 
     rw [wrapper_once fac s _ 2 _ (by simp)]
     simp [encFlagsF, encVarWith, hw, encCoreWith, hitems', hitems 0, Except.map, wrapJ]
 
+/-- **enum_value_reencoded**: the value of a plain enumeration member goes through `encode` again, so a
+member value that is not a JSON primitive (a `QName` here; Decimal, XmlDuration, XmlDate … likewise go to
+`converter.serialize`) is written as its text: the result is the encoding of the value itself and it is
+JSON-native — for a var without wrapper under either flag, and for the items of a wrapped list. -/
+theorem enum_value_reencoded (fac : Factory) (l : Str) (n : Nat) (b : Bool) (p : PVal) :
+    encFlagsF fac none l (n + 2) b (.enum false (.prim p)) = .ok (encPrim p) ∧ (encPrim p).native = true := by
+  refine ⟨by simp [encFlagsF], ?_⟩
+  cases p <;> rfl
+
+/-- an enumeration of QNames (`Kind.A = QName("{urn:demo}a")`), single and in a wrapped list -/
+example : encFlagsF .dict none "kind".toList 3 false (.enum false (.prim (.qname "{urn:demo}a".toList)))
+      = .ok (.str "{urn:demo}a".toList)
+    ∧ encFlagsF .filterNone (some "Kinds".toList) "kind".toList 4 false
+        (.list [.enum false (.prim (.qname "{urn:demo}a".toList)), .enum false (.prim (.qname "b".toList))])
+      = .ok (.obj [("kind".toList, .arr [.str "{urn:demo}a".toList, .str "b".toList])]) := ⟨by rfl, by rfl⟩
+
 end Props.C04
